@@ -20,40 +20,103 @@ fn enc_sels(s: &[Sel], out: &mut String) {
     out.push('.');
 }
 
+/// How the abstract selection tree is written down as GraphQL text.  The abstract tree (and so the
+/// model case and the oracle) is the same for every style: only things the depth rule must ignore vary.
+#[derive(Clone, Copy, Debug, Default, PartialEq)]
+pub struct Style {
+    /// 0 `__type`, 1 `__schema{types}`, 2 `__schema{queryType}`, 3 `__schema{directives{args{type}}}`,
+    /// 4 named query with alias, `__typename` and a concrete root field, 5 second of two operations
+    pub root: u8,
+    /// 0 none, 1 every list field gets a unique alias, 2 additionally `ofType` is aliased to a list-field name
+    pub alias: u8,
+    /// list-valued introspection fields that do NOT count (`args`, `enumValues`) are interleaved
+    pub noise: bool,
+    /// `@skip(if: false)` / `@include(if: true)` on fields, inline fragments and spreads
+    pub dirs: bool,
+}
+pub const N_ROOTS: u8 = 6;
+
+struct Pr { alt: usize, uniq: usize, st: Style }
+
+impl Pr {
+    fn dir(&mut self) -> &'static str {
+        if !self.st.dirs { return ""; }
+        self.uniq += 1;
+        match self.uniq % 3 { 0 => " @skip(if: false)", 1 => " @include(if: true)", _ => "" }
+    }
+    fn list_alias(&mut self) -> String {
+        if self.st.alias == 0 { return String::new(); }
+        self.uniq += 1;
+        format!("a{}: ", self.uniq)
+    }
+}
+
 /// selections on `__Type`
-fn print_sels(s: &[Sel], out: &mut String, alt: &mut usize) {
+fn print_sels(s: &[Sel], out: &mut String, pr: &mut Pr) {
     out.push_str("{ name ");
+    if pr.st.noise && pr.alt % 3 == 0 { out.push_str("enumValues(includeDeprecated: true) { name } "); }
     for x in s {
         match x {
             Sel::Field(true, sub) => {
-                *alt += 1;
-                match *alt % 4 {
-                    0 => { out.push_str("interfaces "); print_sels(sub, out, alt); }
-                    1 => { out.push_str("possibleTypes "); print_sels(sub, out, alt); }
-                    2 => { out.push_str("fields { name type "); print_sels(sub, out, alt); out.push_str("} "); }
-                    _ => { out.push_str("inputFields { name type "); print_sels(sub, out, alt); out.push_str("} "); }
+                pr.alt += 1;
+                let al = pr.list_alias();
+                let d = pr.dir();
+                match pr.alt % 4 {
+                    0 => { out.push_str(&format!("{al}interfaces{d} ")); print_sels(sub, out, pr); }
+                    1 => { out.push_str(&format!("{al}possibleTypes{d} ")); print_sels(sub, out, pr); }
+                    2 => {
+                        if pr.st.noise {
+                            out.push_str(&format!("{al}fields{d} {{ name args {{ name type "));
+                            print_sels(sub, out, pr);
+                            out.push_str("} } ");
+                        } else {
+                            out.push_str(&format!("{al}fields{d} {{ name type "));
+                            print_sels(sub, out, pr);
+                            out.push_str("} ");
+                        }
+                    }
+                    _ => { out.push_str(&format!("{al}inputFields{d} {{ name type ")); print_sels(sub, out, pr); out.push_str("} "); }
                 }
             }
-            Sel::Field(false, sub) => { out.push_str("ofType "); print_sels(sub, out, alt); }
-            Sel::Inline(sub) => {
-                *alt += 1;
-                out.push_str(if *alt % 2 == 0 { "... on __Type " } else { "... " });
-                print_sels(sub, out, alt);
+            Sel::Field(false, sub) => {
+                let al = if pr.st.alias == 2 { pr.uniq += 1; ["fields: ", "interfaces: ", "possibleTypes: ", "inputFields: "][pr.uniq % 4] } else { "" };
+                let d = pr.dir();
+                out.push_str(&format!("{al}ofType{d} "));
+                print_sels(sub, out, pr);
             }
-            Sel::Spread(j) => out.push_str(&format!("...F{j} ")),
+            Sel::Inline(sub) => {
+                pr.alt += 1;
+                let d = pr.dir();
+                out.push_str(if pr.alt % 2 == 0 { "... on __Type" } else { "..." });
+                out.push_str(d);
+                out.push(' ');
+                print_sels(sub, out, pr);
+            }
+            Sel::Spread(j) => { let d = pr.dir(); out.push_str(&format!("...F{j}{d} ")) }
         }
     }
     out.push_str("} ");
 }
 
-fn doc_text(frags: &[Vec<Sel>], op: &[Sel]) -> String {
-    let mut out = String::from("{ __type(name: \"X\") ");
-    let mut alt = 0;
-    print_sels(op, &mut out, &mut alt);
-    out.push_str("} ");
+/// the name of the operation to check (None: the only one)
+fn op_name(st: Style) -> Option<&'static str> { if st.root == 5 { Some("B") } else { None } }
+
+fn doc_text(frags: &[Vec<Sel>], op: &[Sel], st: Style) -> String {
+    let (pre, post) = match st.root {
+        0 => ("{ __type(name: \"X\") ", "} "),
+        1 => ("{ __schema { types ", "} } "),
+        2 => ("{ __schema { queryType ", "} } "),
+        3 => ("{ __schema { directives { name args { name type ", "} } } } "),
+        4 => ("query Q { __typename x t: __type(name: \"X\") ", "__schema { mutationType { name } } } "),
+        _ => ("query A { __type(name: \"Y\") { name kind } } query B { __type(name: \"X\") ", "} "),
+    };
+    let mut out = String::from(pre);
+    let mut pr = Pr { alt: 0, uniq: 0, st };
+    print_sels(op, &mut out, &mut pr);
+    out.push_str(post);
     for (j, f) in frags.iter().enumerate() {
         out.push_str(&format!("fragment F{j} on __Type "));
-        print_sels(f, &mut out, &mut alt);
+        print_sels(f, &mut out, &mut pr);
     }
     out
 }
@@ -109,13 +172,17 @@ fn gen_sels(rng: &mut Rng, depth: usize, max_frag: usize, budget: &mut usize) ->
     out
 }
 
-fn verdict(schema: &apollo_compiler::validation::Valid<Schema>, text: &str) -> Result<bool, String> {
+fn verdict(schema: &apollo_compiler::validation::Valid<Schema>, text: &str, name: Option<&str>) -> Result<bool, String> {
     let doc = ExecutableDocument::parse_and_validate(schema, text, "d.graphql").map_err(|e| e.errors.to_string())?;
-    let op = doc.operations.get(None).map_err(|_| "no op".to_string())?;
+    let op = doc.operations.get(name).map_err(|_| "no op".to_string())?;
     Ok(apollo_compiler::introspection::check_max_depth(&doc, op).is_ok())
 }
 
 fn one(ctx: &mut Ctx, schema: &apollo_compiler::validation::Valid<Schema>, frags: Vec<Vec<Sel>>, op: Vec<Sel>) {
+    one_styled(ctx, schema, frags, op, Style::default())
+}
+
+fn one_styled(ctx: &mut Ctx, schema: &apollo_compiler::validation::Valid<Schema>, frags: Vec<Vec<Sel>>, op: Vec<Sel>, st: Style) {
     // keep only fragments reachable from the operation (validation rejects unused ones), renumber
     let mut seen = vec![false; frags.len()];
     used(&frags, &op, &mut seen);
@@ -124,8 +191,15 @@ fn one(ctx: &mut Ctx, schema: &apollo_compiler::validation::Valid<Schema>, frags
     for (j, f) in frags.iter().enumerate() { if seen[j] { map[j] = kept.len(); kept.push(f.clone()); } }
     let kept: Vec<Vec<Sel>> = kept.iter().map(|f| renumber(f, &map)).collect();
     let op = renumber(&op, &map);
-    let text = doc_text(&kept, &op);
-    let got = match catch(|| verdict(schema, &text)) {
+    let text = doc_text(&kept, &op, st);
+    if st != Style::default() {
+        ctx.stat("styled");
+        ctx.stat(&format!("style:root_{}", st.root));
+        if st.alias > 0 { ctx.stat(&format!("style:alias_{}", st.alias)); }
+        if st.noise { ctx.stat("style:uncounted_list_fields"); }
+        if st.dirs { ctx.stat("style:directives"); }
+    }
+    let got = match catch(|| verdict(schema, &text, op_name(st))) {
         Err(p) => { ctx.fail("maxdepth-panic", &text, &p); return; }
         Ok(Err(e)) => { ctx.stat("generated_invalid"); ctx.fail("maxdepth-generator-invalid", &text, &e); return; }
         Ok(Ok(v)) => v,
@@ -141,8 +215,8 @@ fn one(ctx: &mut Ctx, schema: &apollo_compiler::validation::Valid<Schema>, frags
     // same selections written without named fragments
     if !kept.is_empty() {
         let inl = inline_all(&kept, &op);
-        let text2 = doc_text(&[], &inl);
-        match catch(|| verdict(schema, &text2)) {
+        let text2 = doc_text(&[], &inl, st);
+        match catch(|| verdict(schema, &text2, op_name(st))) {
             Ok(Ok(v2)) => if v2 != got { ctx.fail("maxdepth-inline-differs", &text, &format!("with fragments ok={got}, inlined ok={v2}: {text2}")); },
             _ => ctx.fail("maxdepth-generator-invalid", &text2, "inlined form did not validate"),
         }
@@ -195,14 +269,48 @@ pub fn run(ctx: &mut Ctx) {
             if chain.len() > maxlen { break; }
         }
     }
-    // random documents
+    // style sweep (audit G5): every way of writing the same abstract tree that the rule must ignore —
+    // 6 roots × 3 alias modes × uncounted list fields × directives — over all chains of length ≤ 2 (≤ 3 thorough)
+    let sweep_len = if ctx.thorough { 3 } else { 2 };
+    let sweep_fams = if ctx.thorough { 3 } else { 1 };
+    let mut styles = vec![];
+    for root in 0..N_ROOTS { for alias in 0..3u8 { for noise in [false, true] { for dirs in [false, true] {
+        let st = Style { root, alias, noise, dirs };
+        if st != Style::default() { styles.push(st); }
+    } } } }
+    ctx.stat_n("style_sweep_styles", styles.len() as u64);
+    for fam in frag_families.iter().take(sweep_fams) {
+        for len in 0..=sweep_len {
+            let total = 5usize.pow(len as u32);
+            for code in 0..total {
+                let mut c = code;
+                let mut chain = vec![];
+                for _ in 0..len { chain.push(c % 5); c /= 5; }
+                let mut inner: Vec<Sel> = vec![];
+                for &c in chain.iter().rev() {
+                    inner = match c {
+                        0 => vec![Sel::Field(true, inner)],
+                        1 => vec![Sel::Field(false, inner)],
+                        2 => vec![Sel::Inline(inner)],
+                        3 => { let mut v = vec![Sel::Spread(0)]; v.extend(inner); v }
+                        _ => { let mut v = inner; v.push(Sel::Spread(1)); v }
+                    };
+                }
+                for st in &styles { ctx.stat("style_sweep"); one_styled(ctx, &schema, fam.clone(), inner.clone(), *st); }
+            }
+        }
+    }
+    // random documents (half of them in a random style)
     let n = if ctx.thorough { 100_000 } else { 6_000 };
-    for _ in 0..n {
+    for i in 0..n {
         let nf = ctx.rng.below(4);
         let mut frags = vec![];
         for j in 0..nf { let mut b = 6; frags.push(gen_sels(&mut ctx.rng, 2, j, &mut b)); }
         let mut b = 10;
         let op = gen_sels(&mut ctx.rng, 0, nf, &mut b);
-        one(ctx, &schema, frags, op);
+        let st = if i % 2 == 1 {
+            Style { root: ctx.rng.below(N_ROOTS as usize) as u8, alias: ctx.rng.below(3) as u8, noise: ctx.rng.chance(1, 2), dirs: ctx.rng.chance(1, 2) }
+        } else { Style::default() };
+        one_styled(ctx, &schema, frags, op, st);
     }
 }
